@@ -73,11 +73,11 @@ def collect_obligations(meta):
     return obs
 
 
-def run_unit(name, repo=None, seed=None, rlimit=60, extra_tag="", canary=False):
+def run_unit(name, repo=None, seed=None, rlimit=60, extra_tag="", canary=False, findings=False):
     r = UnitResult(name)
     os.makedirs(WORK, exist_ok=True)
     try:
-        text, meta, info, unit, specs = gen.generate(name, repo, canary=canary)
+        text, meta, info, unit, specs = gen.generate(name, repo, canary=canary, findings=findings)
     except (LostAnchor, Unsupported, SpecError) as e:
         r.status, r.reason = "inconclusive", "%s: %s" % (type(e).__name__, e)
         return r
